@@ -62,6 +62,7 @@ func main() {
 	} else {
 		extractTxFsm(contracts, genDir)
 		extractGovPriority(contracts, genDir)
+		extractCascade(contracts, genDir)
 		if exe := byPath["github.com/meshplus/bitxhub/internal/executor"]; exe != nil {
 			extractContractMethods(exe, contracts, genDir)
 			extractFailedEvents(exe, genDir)
